@@ -37,6 +37,9 @@ META = {
 
 
 def run_extra(ctx: Ctx):
+    # ---------------------------------------------------------------- R08.13 an ALAP task's deadline is the earliest start of ALL its successors, including those that depend on it through their container (= C04 R04.1)
+    from .c04 import edge_set_rule
+    edge_set_rule(ctx, "R08.13", only={"TaskScenario._getSuccessors", "TaskScenario._gapToSuccessor", "TaskScenario._alapReadyForScheduling"})
     # ---------------------------------------------------------------- R08.12 answers never come from state that outlives the question
     from .common import process_state_rule
     process_state_rule(ctx, "R08.12", [ctx.repo.func("Project.schedule")],
